@@ -1,4 +1,5 @@
 """C16 - shortcuts agree with the full path; misses are clean (typing of the shortcuts + miss discipline)."""
+import ast
 from ..schema import Schema
 from .. import rules_shortcuts as A
 
@@ -22,6 +23,10 @@ def run(project, rep):
     rep.run(A.a_r2_r3_properties, schema, rep)
     rep.run(A.a_r4_ofx, schema, rep)
     rep.run(A.a_r5_recomputed_and_picklable, schema, rep)
+    rep.run(A.a_r9_default_copy_protocol, schema, rep)
     from .. import rules_schema as S
     rep.rule("A-R7", "flat attribute access consults the class's OWN table of sub-aggregates (S-R10: no class-level memo read through inheritance)")
     rep.run(S.s_r10_per_class_tables, schema, rep)
+    from .. import rules_purity as E
+    rep.rule("A-R8", "a shortcut hands out the model's own objects and leaves the model as it was: no property of a model class changes an object it reached through self (E-R1/E-R2 effect rules, evaluated on the properties only) - `x += more` on a list taken from the model extends the model")
+    rep.run_only(("E-R1", "E-R2"), E.e_rules, project, rep, func_filter=lambda modname, qn, cls, fn: modname.startswith("ofxtools.models") and any(isinstance(d, ast.Name) and d.id == "property" for d in fn.decorator_list))
